@@ -484,7 +484,7 @@ class TimeDeltaUnmarshaller(AbstractUnmarshaller[TimeDeltaT], tp.Generic[TimeDel
             val: The input value to unmarshal.
         """
         if isinstance(val, (int, float)):
-            return self.t(seconds=int(val))
+            return self.t(seconds=val)
 
         decoded = serdes.decode(val)
         td: datetime.timedelta = (
@@ -496,7 +496,10 @@ class TimeDeltaUnmarshaller(AbstractUnmarshaller[TimeDeltaT], tp.Generic[TimeDel
         if td.__class__ is self.t:
             return td  # type: ignore[return-value]
 
-        return self.t(seconds=td.total_seconds())
+        # Exact conversion: `total_seconds()` is a float and drops microseconds on long spans
+        #   (and pendulum's own `//` doesn't accept a plain timedelta).
+        micros = datetime.timedelta.__floordiv__(td, datetime.timedelta(microseconds=1))
+        return self.t(microseconds=micros)
 
 
 UUIDT = tp.TypeVar("UUIDT", bound=uuid.UUID)
